@@ -13,6 +13,7 @@ import (
 	"fmt"
 	"os"
 	"strings"
+	"sync"
 	"sync/atomic"
 	"time"
 
@@ -27,11 +28,35 @@ import (
 
 var run0 = time.Now()
 
+// covState: what has been measured so far (the evidence is assembled from it by
+// finish, normally at the end, by the stall watchdog if a case never returns).
+type covState struct {
+	mu      sync.Mutex
+	once    sync.Once
+	skipped string
+	caps    []string
+	nMitm   int
+	nAuth   int
+	nAdmit  int
+	nLong   int
+	chans   []*chanStats // [0] = full alphabet, [1] = core alphabet
+	mres    map[string]interface{}
+	timing  map[string]float64
+	maxW    int
+	maxR    int
+	depth   [2]int
+}
+
+// the sizes of the first version of this exploration: it is carried one level
+// deeper than the exploration over all of msgSizes
+var coreSizes = []int{0, 1, 1023, 1024, 1025, 2048, 4096, 4097}
+
 func main() {
 	run := core.Start("C20", "model_checking", "XSTATE")
 	log.SetLog(zap.NewNop())
 	crypto.NodeInit(crypto.CryptoType)
-	c := &ctx{run: run, classes: newCounter(), samples: core.NewSampler(8, run.Seed), dataMax: p2p.VerifDataMaxSize}
+	c := &ctx{run: run, classes: newCounter(), samples: core.NewSampler(8, run.Seed), dataMax: p2p.VerifDataMaxSize, fl: &flights{}, cov: &covState{timing: map[string]float64{}}}
+	checkRawMsgEncoding()
 
 	if run.ReplayPath != "" {
 		var k kase
@@ -41,21 +66,33 @@ func main() {
 		c.runCase(k)
 		run.Finish(nil, nil)
 	}
+	c.startWatchdog()
+	cov := c.cov
 
-	// debugging aid only: C20_SKIP=stream,mitm,chan,admit,mconn leaves parts out (evidence then says exhaustive=false)
-	skipped := os.Getenv("C20_SKIP")
-	skip := func(p string) bool { return strings.Contains(skipped, p) }
+	// debugging aid only: C20_SKIP=stream,mitm,chan,admit,mconn,long leaves parts out (evidence then says exhaustive=false)
+	cov.skipped = os.Getenv("C20_SKIP")
+	skip := func(p string) bool { return strings.Contains(cov.skipped, p) }
 	progress := func(what string) {
 		if os.Getenv("C20_VERBOSE") != "" {
 			fmt.Fprintf(os.Stderr, "[%6.1fs] %s\n", time.Since(run0).Seconds(), what)
 		}
+	}
+	timed := func(name string, t0 time.Time) {
+		cov.mu.Lock()
+		cov.timing[name] = time.Since(t0).Seconds()
+		cov.mu.Unlock()
+		progress(name + " done")
+	}
+	addCap := func(s string) {
+		cov.mu.Lock()
+		cov.caps = append(cov.caps, s)
+		cov.mu.Unlock()
 	}
 	// Safety caps for the thorough tier only (the quick tier is never cut, so its
 	// counts do not depend on the machine): no new stream task is started after
 	// streamBudget, no new channel depth after chanBudget when the projected time
 	// of the level would not fit.  A cap sets exhaustive=false and is reported.
 	streamBudget, chanBudget := 6*time.Minute, 13*time.Minute+30*time.Second
-	var caps []string
 
 	// (a) man in the middle, lying endpoints
 	t0 := time.Now()
@@ -63,12 +100,19 @@ func main() {
 	if skip("mitm") {
 		mc = nil
 	}
-	for _, sci := range []int{0, 1, 2} {
-		c.foreign(sci)
+	if skip("long") {
+		var short []kase
+		for _, k := range mc {
+			if k.Script != longScriptIdx {
+				short = append(short, k)
+			}
+		}
+		mc = short
 	}
+	cov.nMitm = len(mc)
 	core.Par(len(mc), func(i int) {
 		c.runMitm(mc[i])
-		if i%97 == 0 {
+		if i%977 == 0 {
 			c.samples.Add(mc[i])
 		}
 	})
@@ -78,10 +122,23 @@ func main() {
 			ac = append(ac, kase{Part: "auth", Lie: lie, ALo: lo})
 		}
 	}
+	cov.nAuth = len(ac)
 	core.Par(len(ac), func(i int) { c.runAuth(ac[i]) })
 	c.samples.Add(ac[2])
-	tMitm := time.Since(t0).Seconds()
-	progress("mitm+auth done")
+	timed("mitm+auth", t0)
+
+	// (a) long honest streams
+	t5 := time.Now()
+	lc := longStreamCases()
+	if skip("long") {
+		lc = nil
+	}
+	cov.nLong = len(lc)
+	core.Par(len(lc), func(i int) { c.runLongStream(lc[i]) })
+	if len(lc) > 0 {
+		c.samples.Add(lc[len(lc)-1])
+	}
+	timed("longstream", t5)
 
 	// (c) admission
 	t2 := time.Now()
@@ -89,24 +146,27 @@ func main() {
 	if skip("admit") {
 		adm = nil
 	}
+	cov.nAdmit = len(adm)
 	core.Par(len(adm), func(i int) {
 		c.runAdmit(adm[i])
-		if i%211 == 0 {
+		if i%811 == 0 {
 			c.samples.Add(adm[i])
 		}
 	})
-	tAdmit := time.Since(t2).Seconds()
-	progress("admission done")
+	timed("admission", t2)
 
 	// (b') conformance subset on started MConnections
 	t3 := time.Now()
 	mres := c.runMConnSubset(skip("mconn"))
-	tMconn := time.Since(t3).Seconds()
-	progress("mconn done")
+	cov.mu.Lock()
+	cov.mres = mres
+	cov.mu.Unlock()
+	timed("mconn", t3)
 
 	// (a) streams
 	t4 := time.Now()
-	maxW, maxR := run.Pick(2, 3), run.Pick(3, 4)
+	cov.maxW, cov.maxR = run.Pick(2, 3), run.Pick(3, 4)
+	maxW, maxR := cov.maxW, cov.maxR
 	st := streamTasks(maxW)
 	if skip("stream") {
 		st = nil
@@ -121,73 +181,125 @@ func main() {
 		c.runStreamTask(st[i], maxR)
 	})
 	if streamSkipped > 0 {
-		caps = append(caps, fmt.Sprintf("stream: time cap %v reached, %d of %d (write sequence, first read buffer) tasks not run (tasks are ordered by number of writes: the <=%d-write space is complete if the skipped tasks are fewer than the %d-write ones)", streamBudget, streamSkipped, len(st), maxW-1, maxW))
+		addCap(fmt.Sprintf("stream: time cap %v reached, %d of %d (write sequence, first read buffer) tasks not run (tasks are ordered by number of writes: the <=%d-write space is complete if the skipped tasks are fewer than the %d-write ones)", streamBudget, streamSkipped, len(st), maxW-1, maxW))
 	}
 	c.samples.Add(kase{Part: "stream", Writes: []int{2}, Reads: []int{1, 1}})
-	nStream := int(atomic.LoadInt64(&c.streamCases))
-	tStream := time.Since(t4).Seconds()
-	progress("stream done")
+	timed("stream", t4)
 
-	// (b) channels
-	depth := run.Pick(6, 8)
+	// (b) channels: all of msgSizes to depth[0], then the core sizes one level deeper
+	cov.depth = [2]int{run.Pick(5, 6), run.Pick(6, 8)}
+	if v := os.Getenv("C20_CHAN_DEPTHS"); v != "" { // debugging aid only
+		fmt.Sscanf(v, "%d,%d", &cov.depth[0], &cov.depth[1])
+		cov.skipped += " chan-depths-overridden"
+	}
 	if skip("chan") {
-		depth = 0
+		cov.depth = [2]int{0, 0}
 	}
 	t1 := time.Now()
-	var deadline time.Time
+	var deadline [2]time.Time
 	if !run.Quick() {
-		deadline = run0.Add(chanBudget)
+		// the full alphabet gets the first 60% of what is left
+		left := run0.Add(chanBudget).Sub(time.Now())
+		deadline[0] = time.Now().Add(left * 6 / 10)
+		deadline[1] = run0.Add(chanBudget)
 	}
-	cs := c.exploreChan(depth, deadline, progress)
-	if cs.maxDepth < depth {
-		caps = append(caps, fmt.Sprintf("channel: depth %d not started (projected to end after the %v cap); largest depth completed exhaustively: %d", cs.maxDepth+1, chanBudget, cs.maxDepth))
+	full := c.exploreChan("all-sizes", cov.depth[0], chanAlphabet(msgSizes), nil, deadline[0], 9, progress)
+	if full.maxDepth < cov.depth[0] {
+		addCap(fmt.Sprintf("channel (all sizes): depth %d not started or not completed (time cap); largest depth completed exhaustively: %d", full.maxDepth+1, full.maxDepth))
 	}
-	tChan := time.Since(t1).Seconds()
-	progress("chan done")
+	coreSt := c.exploreChan("core-sizes", cov.depth[1], chanAlphabet(coreSizes), full, deadline[1], 5.5, progress)
+	if coreSt.maxDepth < cov.depth[1] {
+		addCap(fmt.Sprintf("channel (core sizes): depth %d not started or not completed (%v cap); largest depth completed exhaustively: %d", coreSt.maxDepth+1, chanBudget, coreSt.maxDepth))
+	}
+	if !verifyMsgCache() {
+		core.Fatal("a shared message buffer was written to")
+	}
+	timed("channel", t1)
 
+	c.finish("")
+}
+
+// finish assembles the evidence from what has been measured and ends the
+// process (exit 0/1).  aborted != "": called by the stall watchdog.
+func (c *ctx) finish(aborted string) {
+	c.cov.once.Do(func() { c.finishOnce(aborted) })
+	select {} // the first caller is exiting the process
+}
+
+func (c *ctx) finishOnce(aborted string) {
+	atomic.StoreInt32(&c.fl.off, 1)
+	cov := c.cov
+	cov.mu.Lock()
+	defer cov.mu.Unlock()
+	caps := append([]string(nil), cov.caps...)
+	if aborted != "" {
+		caps = append(caps, aborted)
+	}
 	cls := c.classes.Map()
-	states := int(cs.states) + nStream + len(mc) + len(ac) + len(adm)
-	run.Finish(core.Coverage{
-		"states":                        states,
-		"transitions":                   int(atomic.LoadInt64(&c.evals)),
-		"traces_validated_against_impl": int(atomic.LoadInt64(&c.evals)),
-		"evaluations":                   int(atomic.LoadInt64(&c.evals)),
-		"distinct_nontrivial":           int(c.streamNontrivial) + int(c.mitmApplied) + len(ac) + int(cs.states) + len(adm),
+	nStream := int(atomic.LoadInt64(&c.streamCases))
+	var cs [2]chanStats
+	for i := 0; i < 2 && i < len(cov.chans); i++ {
+		cs[i] = *cov.chans[i]
+	}
+	// states that both explorations found (looked up by deduplication key) are counted once
+	chanStates := int(cs[0].states) + int(cs[1].states) - int(cs[1].overlap)
+	nFixed := cov.nMitm + cov.nAuth + cov.nLong + cov.nAdmit
+	evals := int(atomic.LoadInt64(&c.evals))
+	c.run.Finish(core.Coverage{
+		"states":                        chanStates + nStream + nFixed,
+		"transitions":                   evals,
+		"traces_validated_against_impl": evals,
+		"evaluations":                   evals,
+		"distinct_nontrivial":           int(c.streamNontrivial) + int(c.mitmApplied) + cov.nAuth + cov.nLong + chanStates + cov.nAdmit,
 		"distinct_outcome_classes":      len(cls),
-		"rule": "(a) every write-size sequence of length 1.." + fmt.Sprint(maxW) + " and every read-buffer sequence of length 1.." + fmt.Sprint(maxR) +
-			" over {0,1,2,1023,1024,1025,2047,2048,3000} (a read sequence is extended only while its buffers cannot yet hold all written bytes; at full length the buffers are re-used cyclically; what the enumerated buffers leave is fetched with 4096-byte reads), in both directions of a real connection made by the real handshake (at most 64 patterns back to back per connection, a probe frame in each direction after every pattern, violation artefacts carry the connection's history); every tampering kind {bit flip in authenticator/length/payload/padding, swap, replay, drop, insert, cross-session splice, truncate, cut, ephemeral-key substitution, reflection of the opposite direction's unit f-1/f/f+1} at every unit 0..4 for both orders of the ephemeral keys; every lying auth message; " +
-			"(b) breadth-first over all histories of {send(ch,size) 2x8, pump(ch), poll(ch)=isSendPending only, deliver} up to the depth bound with deduplication on (queued sizes, message in transmission+offset, receiver fill, packets on the wire, dead), every transition followed by a drain that must deliver every accepted message; " +
-			"(c) every combination of phase x refuse-list x announced-key x auth_by_ca x validator x non_validator_node_auth x signature kind x self; " +
-			"all enumerated cases are distinct by construction; distinct_nontrivial = stream patterns that write at least one byte + tampering cases in which the delivered ciphertext really differs from the genuine one + lying-auth cases + distinct channel states (by the deduplication key) + admission configurations; distinct_outcome_classes counts the distinct (part, input class, outcome) classes observed (histogram in outcome_classes)",
-		"exhaustive": skipped == "" && len(caps) == 0,
+		"rule": "(a) every write-size sequence of length 1.." + fmt.Sprint(cov.maxW) + " and every read-buffer sequence of length 1.." + fmt.Sprint(cov.maxR) +
+			" over {0,1,2,1023,1024,1025,2047,2048,3000} (a read sequence is extended only while its buffers cannot yet hold all written bytes; at full length the buffers are re-used cyclically; what the enumerated buffers leave is fetched with 4096-byte reads), in both directions of a real connection made by the real handshake (at most 64 patterns back to back per connection, a probe frame in each direction after every pattern, violation artefacts carry the connection's history); " +
+			"long honest streams: both parties write " + fmt.Sprint(longFrames) + " frames (four carries out of the last byte of the frame counter, in the even and in the odd series), each reads all of it, for both orders of the ephemeral keys x 4 cyclic read-buffer profiles; " +
+			"man in the middle on either direction (what A writes | what B writes) for both orders of the ephemeral keys: every tampering kind {bit flip in authenticator/length/payload/padding, swap, replay, drop, insert, cross-session splice, truncate, cut, ephemeral-key substitution, reflection of the opposite direction's unit f-1/f/f+1} at every unit 0..4; on the long script (" + fmt.Sprint(longFrames) + " data frames in each direction) every far kind {copy of unit a delivered again before unit a+d, copy of a in the place of a+d, a and a+d exchanged, a+d moved in front of a, a moved behind a+d} for every anchor a in far_anchors (sealed handshake frame(s), first data frame(s), the frames on either side of the counter carries; handshake frames are only copied) and EVERY distance d = 1..(last unit - a); every lying auth message; " +
+			"(b) breadth-first over all histories of {send(ch,size) 2 channels x sizes, pump(ch), poll(ch)=isSendPending only, deliver} with deduplication on (queued sizes, message in transmission+offset, receiver fill, packets on the wire, dead), every transition followed by a drain that must deliver every accepted message; run twice: sizes = chan_msg_sizes (k*1024-1, k*1024, k*1024+1 for k=1..3, 0, 1, capacity, capacity+1) to depth chan_depth_all_sizes, and sizes = chan_core_sizes to chan_depth_core_sizes (states found by both runs - looked up by the deduplication key - are counted once); " +
+			"(b') real started MConnections: every encoded size of chan_msg_sizes alone on a channel with and without a following message (completion by count: a message that is accepted and never delivered is a violation after 3 idle deadlines out of 3), pairs, mixes; the encoded size is wire.BinaryBytes of the message (checked at start); " +
+			"(c) every combination of direction (the switch under test accepts the connection | dials out) x phase x refuse-list x pub-key filter x announced-key x auth_by_ca x validator x non_validator_node_auth x signature kind x self; " +
+			"all enumerated cases are distinct by construction; distinct_nontrivial = stream patterns that write at least one byte + tampering cases in which the delivered ciphertext really differs from the genuine one + lying-auth cases + long streams + distinct channel states (by the deduplication key) + admission configurations; distinct_outcome_classes counts the distinct (part, input class, outcome) classes observed (histogram in outcome_classes)",
+		"exhaustive": cov.skipped == "" && len(caps) == 0,
 		"caps":       caps,
 		"bounds": map[string]interface{}{
-			"max_writes": maxW, "max_reads": maxR, "sizes": sizeSet,
-			"mitm_units": "0..4", "chan_depth": depth, "chan_msg_sizes": msgSizes,
+			"max_writes": cov.maxW, "max_reads": cov.maxR, "sizes": sizeSet,
+			"mitm_units": "0..4", "mitm_directions": 2, "long_script_frames_per_direction": longFrames, "far_anchors": farAnchors(c.run.Quick()), "far_kinds": farKindList,
+			"far_distances":        "1..(units-1-anchor), all",
+			"chan_depth_all_sizes": cov.depth[0], "chan_depth_core_sizes": cov.depth[1], "chan_msg_sizes": msgSizes, "chan_core_sizes": coreSizes,
 			"chan_send_queue": chanSendQueueCap, "chan_recv_capacity": chanRecvMsgCap,
+			"admission_directions": admitDirections, "admission_pubkey_filter": admitPKFilters,
+			"deadlines_s": map[string]float64{"handshake": handshakeDeadline.Seconds(), "mconn_idle": mconnIdleDeadline.Seconds(), "stall": stallLimit.Seconds()},
 		},
 		"stream_cases":                    nStream,
 		"stream_cases_with_leftover_read": int(c.leftoverCases),
 		"stream_leftover_cases_failing":   int(c.leftoverFailing),
-		"mitm_cases":                      len(mc),
-		"auth_cases":                      len(ac),
-		"chan_states":                     int(cs.states),
-		"chan_transitions":                int(cs.transitions),
-		"chan_merges":                     int(cs.merges),
-		"chan_new_states_per_depth":       cs.perDepth,
-		"chan_max_depth_completed":        cs.maxDepth,
-		"chan_violating_transitions":      int(cs.violating),
-		"admission_cases":                 len(adm),
-		"mconn_conformance":               mres,
+		"long_stream_cases":               cov.nLong,
+		"mitm_cases":                      cov.nMitm,
+		"mitm_cases_really_tampered":      int(c.mitmApplied),
+		"auth_cases":                      cov.nAuth,
+		"chan_states":                     chanStates,
+		"chan_all_sizes":                  chanCov(cs[0]),
+		"chan_core_sizes":                 chanCov(cs[1]),
+		"admission_cases":                 cov.nAdmit,
+		"mconn_conformance":               cov.mres,
 		"outcome_classes":                 cls,
 		"samples":                         c.samples.List(),
-		"wall_s_by_part":                  map[string]float64{"stream": tStream, "mitm+auth": tMitm, "channel": tChan, "admission": tAdmit, "mconn": tMconn},
+		"wall_s_by_part":                  cov.timing,
 	}, []string{
 		"every enumerated case is executed on the real p2p.SecretConnection / p2p.Channel / p2p.Switch / gemmill.authByCA / refuse_list code (traces_validated_against_impl = all); reference models are used only as oracles",
-		"the man in the middle knows no secrets (acts on ciphertext units only); unforgeability of ed25519 and secretbox is not what is being decided, only that the code uses them so that every frame-level manipulation is rejected",
+		"the man in the middle knows no secrets (acts on ciphertext units only, may delay what it has seen for as long as it likes); unforgeability of ed25519 and secretbox is not what is being decided, only that the code uses them so that every frame-level manipulation is rejected",
 		"(b) drives Channel objects directly (the harness, not MConnection's priority rule, picks the channel: a superset of the real interleavings, channels share no state); the routines themselves are only covered by the progress-based conformance subset",
-		"(c) 'current validator set' = State.Validators after the real AdminOp.EndBlock + State.SetBlockAndValidators sequence of State.ExecBlock, on the same State object whose &Validators was given to authByCA (the path most favourable to the implementation)",
+		"(c) 'current validator set' = State.Validators after the real AdminOp.EndBlock + State.SetBlockAndValidators sequence of State.ExecBlock, on the same State object whose &Validators was given to authByCA (the path most favourable to the implementation); the outbound direction is AddPeerWithConnection(conn, true), which is what DialPeerWithAddress calls after dialing; the pub-key filter is the switch's second key-based admission hook (SetPubKeyFilter, same contract as the refuse-list hook: an error means the key is not admitted), installed by the harness with a filter that rejects exactly the peer's authenticated key",
+		"deadlines (handshake, idle MConnection, stall watchdog) only turn code that never returns / a message that is never delivered into a verdict, after 3 occurrences out of 3; they are far above what the unchanged code needs on a heavily loaded machine and no verdict of a case that returns depends on the clock",
 	})
+}
+
+func chanCov(cs chanStats) map[string]interface{} {
+	return map[string]interface{}{
+		"states": int(cs.states), "transitions": int(cs.transitions), "merges": int(cs.merges),
+		"new_states_per_depth": cs.perDepth, "max_depth_completed": cs.maxDepth, "violating_transitions": int(cs.violating), "states_also_found_by_the_other_run": int(cs.overlap),
+	}
 }
 
 func (c *ctx) runCase(k kase) {
@@ -196,6 +308,8 @@ func (c *ctx) runCase(k kase) {
 		c.replayStream(k)
 	case "mitm":
 		c.runMitm(k)
+	case "longstream":
+		c.runLongStream(k)
 	case "auth":
 		c.runAuth(k)
 	case "chan":
